@@ -302,6 +302,13 @@ fn parse_chunker_opts(
         ));
     }
     let window_size = *matches.get_one::<usize>("rolling-window-size").unwrap();
+    // The archive stores these as 32 bit values; a bigger one can't be recorded.
+    if max_chunk_size > u32::MAX as usize || window_size > u32::MAX as usize {
+        return Err(cmd.error(
+            ErrorKind::ValueValidation,
+            "Chunk sizes and the rolling window size must be smaller than 4 GiB",
+        ));
+    }
     Ok(chunker::FilterConfig {
         filter_bits,
         min_chunk_size,
@@ -319,7 +326,16 @@ fn parse_chunker_config(
             matches.get_one::<usize>("fixed-size"),
             matches.get_one::<String>("hash-chunking").unwrap().as_ref(),
         ) {
-            (Some(fixed_size), _) => chunker::Config::FixedSize(*fixed_size),
+            (Some(fixed_size), _) => {
+                // The archive stores the size as a 32 bit value; a bigger one can't be recorded.
+                if *fixed_size > u32::MAX as usize {
+                    return Err(cmd.error(
+                        ErrorKind::ValueValidation,
+                        "Fixed chunk size must be smaller than 4 GiB",
+                    ));
+                }
+                chunker::Config::FixedSize(*fixed_size)
+            }
             (_, "RollSum") => chunker::Config::RollSum(parse_chunker_opts(cmd, matches)?),
             (_, "BuzHash") => chunker::Config::BuzHash(parse_chunker_opts(cmd, matches)?),
             _ => unreachable!(),
